@@ -24,6 +24,40 @@ META = {"level": "other", "rule": "error-discipline dataflow over every Result-r
         "explanation": "A dropped or swallowed io::Error is visible in the shape of the MIR: the call's destination local is never branched on, returned or passed on. Every such call site in the crate is enumerated on each run."}
 
 
+def stream_reader_error_rules(F, ok, rep, P):
+    """FlacStreamReader::read: an I/O error met while parsing a candidate frame header is reported; any other header
+    error means `not a frame header` and the scan goes on (the reader re-synchronises on garbage)"""
+    sb = anchor(F, rep, P, "decode::FlacStreamReader::read")
+    if sb is not None:
+        pf = ok.path_facts(sb)
+        rs = call_blocks(sb, r"FrameHeader::read_subset$")
+        good = False
+        for bi, s in agg_sites(sb, "Error", "Io"):
+            f = pf.get(bi, TOP)
+            if fact_match(f, "is", "^Io$", "read_subset") or fact_match(f, "is", "^Err$", "read_subset"):
+                good = True
+        rep.check(P, "FlacStreamReader::read returns an I/O error raised while parsing a frame header", good and len(rs) == 1, loc_of(sb), "",
+                  "an I/O error from FrameHeader::read_subset is treated as 'not a header' and swallowed")
+
+    if sb is not None:
+        # no error exit for a header that merely failed to parse
+        bad = []
+        for bi, bl in enumerate(sb.blocks):
+            f = pf.get(bi) or frozenset()
+            if f is TOP:
+                continue
+            hdr_err = any(x[0] == "is" and x[1] == "Err" and "read_subset" in str(x[2]) for x in f)
+            is_io = any(x[0] == "is" and x[1] == "Io" and "read_subset" in str(x[2]) for x in f)
+            if not hdr_err or is_io:
+                continue
+            for st_ in bl["s"]:
+                rv = st_["rv"]
+                if st_["d"]["l"] == 0 and not st_["d"]["p"] and rv["r"] == "agg" and rv.get("adt") == "std::result::Result" and rv.get("var") == "Err":
+                    bad.append(sb.loc(st_["sp"]))
+        rep.check(P, "a candidate header that fails to parse (for a reason other than I/O) is skipped, not reported", not bad, loc_of(sb), "",
+                  "FlacStreamReader::read returns an error for bytes that merely look like a sync code (%s): garbage between frames aborts the stream instead of being skipped" % bad)
+
+
 def run(ctx, rep):
     F = ctx.facts()
     cg = ctx.cg()
@@ -115,18 +149,7 @@ def run(ctx, rep):
     iolib.count_rules(ctx, rep, "C13")
     iolib.flush_forward_rules(ctx, rep, "C13")
 
-    # ---- C13.read: read errors of the stream reader are reported ------------------------------------------------
-    sb = anchor(F, rep, "C13.read", "decode::FlacStreamReader::read")
-    if sb is not None:
-        pf = ok.path_facts(sb)
-        rs = call_blocks(sb, r"FrameHeader::read_subset$")
-        good = False
-        for bi, s in agg_sites(sb, "Error", "Io"):
-            f = pf.get(bi, TOP)
-            if fact_match(f, "is", "^Io$", "read_subset") or fact_match(f, "is", "^Err$", "read_subset"):
-                good = True
-        rep.check("C13.read", "FlacStreamReader::read returns an I/O error raised while parsing a frame header", good and len(rs) == 1, loc_of(sb), "",
-                  "an I/O error from FrameHeader::read_subset is treated as 'not a header' and swallowed")
+    stream_reader_error_rules(F, ok, rep, "C13.read")
 
     # ---- C13.panic ---------------------------------------------------------------------------------------
     auditlib.panic_audit(ctx, rep, "C13", ["G_enc", "G_mw"], floor_sites=250)
